@@ -15,6 +15,8 @@ ASSUMPTIONS = [
 
 CODEC_TRUST = ["Model.Codec hand-written from diam/avp.go, group.go, header.go, message.go, datatype/*.go"]
 
+CONN_TRUST = ["Model.Conn / Model.Shared hand-written from diam/server.go (conn.serve, liveSwitchReader, closeNotify, notifyClientGone, ServeMux.ServeDIAM); goroutine scheduling between library statements is not controlled: the harness drives the real code at transport / handler boundaries and waits for quiescence (goroutine dumps), the theorems cover every interleaving of the model's events"]
+
 PROPS = {
     "C01": dict(
         domains=[("codec", "build", 12000, 150000), ("codec", "decode", 6000, 80000), ("codec", "frame", 2000, 40000)],
@@ -99,5 +101,29 @@ PROPS = {
         theorems=['DV.Props.C20.C20_all', 'DV.Props.C20.C20_first', 'DV.Props.C20.C20_first_sound', 'DV.Props.C20.C20_all_sound', 'DV.Props.C20.C20_path', 'DV.Props.C20.C20_gen'],
         gen_obligations=['Gen.GroupedAVPType'],
         trusted=CODEC_TRUST,
+    ),
+    "C08": dict(
+        domains=[("conn", "serve", 500, 6000), ("conn", "multi", 300, 4000), ("conn", "cnall4", 1, 1)],
+        thorough_extra=[("conn", "cnall5", 1, 1)],
+        relevant=["C08:"],
+        theorems=["DV.Props.C08."+t for t in ["C08_one_at_a_time","C08_next_after_return","C08_order","C08_all_dispatched","C08_frame","C08_enabled","C08_gen"]],
+        gen_obligations=["Gen.serveDispatchSync","Gen.goServeSites","Gen.muxServeRLockDeferred","Gen.acceptSpawnsServe"],
+        trusted=CONN_TRUST,
+    ),
+    "C14": dict(
+        domains=[("conn", "closenotify", 600, 8000), ("conn", "cnall4", 1, 1), ("conn", "serve", 200, 2000)],
+        thorough_extra=[("conn", "cnall6", 1, 1)],
+        relevant=["C14:"],
+        theorems=["DV.Props.C14."+t for t in ["C14_once","C14_only_when_gone","C14_quiet","C14_late_request","C14_transparent","C14_nothing_stuck","C14_gen"]],
+        gen_obligations=["Gen.serveDeferClose","Gen.serveDeferNotify","Gen.serveDispatchSync"],
+        trusted=CONN_TRUST,
+    ),
+    "C15": dict(
+        domains=[("conn", "faults", 500, 6000), ("conn", "multi", 300, 4000), ("conn", "accept", 60, 600)],
+        thorough_extra=[("conn", "cnall5", 1, 1)],
+        relevant=["C15:"],
+        theorems=["DV.Props.C15."+t for t in ["C15_panic_contained","C15_bad_input_contained","C15_one_report","C15_fault_cleanup","C15_frame","C15_mux_lock","C15_mux_lock_needs_defer","C15_listener","C15_listener_perm","C15_gen"]],
+        gen_obligations=["Gen.serveDeferRecover","Gen.serveDeferClose","Gen.serveDeferNotify","Gen.muxServeRLockDeferred","Gen.acceptRetryCond","Gen.acceptBackoffFirstMs","Gen.acceptBackoffFactor","Gen.acceptBackoffMaxMs","Gen.acceptResetsDelay","Gen.acceptSpawnsServe","Gen.serveDefersListenerClose","Gen.capErrorReports"],
+        trusted=CONN_TRUST + ["Model.Listener hand-written from Server.Serve's accept loop; back-off constants regenerated"],
     ),
 }
